@@ -83,6 +83,8 @@ def strategy(draw, tier="quick"):
     nested_sim = [draw(st.integers(0, 2)) for _ in range(draw(st.integers(1, 3)))] if draw(st.integers(0, 2)) == 0 else None
     return dict(
         nested_sim=nested_sim,
+        # a second transaction nested in (and simultaneous with) the first nested one: three bodies that must run together
+        nested_sim2=nested_sim is not None and draw(st.booleans()),
         mode=mode,
         conns=conns,
         mids=[_extras(draw, 1) for _ in range(nconn - 1)] if mode == "chain" else [],
@@ -201,8 +203,13 @@ class D(Elaboratable):
             with self.ns_probe.body(m):
                 pass
             self.ns_inner = Method(name="ns_inner")
-            for nm_ in ("ns_inner", "ns_nested", "ns_top"):
+            two = bool(sp.get("nested_sim2"))
+            for nm_ in ("ns_inner", "ns_nested", "ns_top") + (("ns_nested2",) if two else ()):
                 self.rdy[nm_] = Signal(name=f"rdy_{nm_}")
+            if two:
+                self.ns_probe2 = Method(name="ns_probe2")
+                with self.ns_probe2.body(m):
+                    pass
             self.ns_guards = [Signal(name=f"ns_g{i}") for i, g in enumerate(chain) if g]
             for i, sg in enumerate(self.ns_guards):
                 self.rdy[f"ns_g{i}"] = sg
@@ -210,6 +217,11 @@ class D(Elaboratable):
                 nst = Transaction(name="ns_nested")
                 with nst.body(m, ready=self.rdy["ns_nested"]):
                     self.ns_probe(m)
+                    if two:
+                        nst2 = Transaction(name="ns_nested2")
+                        with nst2.body(m, ready=self.rdy["ns_nested2"]):
+                            self.ns_probe2(m)
+                        nst.simultaneous(nst2)
                 self.ns_inner.simultaneous(nst)
             wrappers = [Method(name=f"ns_w{i}") for i in range(len(chain) - 1)]
             targets = wrappers + [self.ns_inner]
@@ -261,6 +273,8 @@ def run_case(spec) -> Result:
     if sp.get("pair_orphan") or any(not callers(sp, k, sd) for k in range(n) for sd in "wr"):
         res.labels.append("side_without_caller")
     if sp.get("nested_sim") is not None:
+        if sp.get("nested_sim2"):
+            res.labels.append("nested_simultaneous_two_levels")
         res.labels.append("nested_simultaneous" + ("+guarded_chain" if any(sp["nested_sim"]) and len(sp["nested_sim"]) > 1 else ""))
     d = D(spec)
     dm = DependencyManager()
@@ -348,8 +362,15 @@ def run_case(spec) -> Result:
                 if ir != nr:
                     out[0] = f"method and its simultaneous nested transaction: method.run={ir}, nested transaction runs={nr}; val={val}"
                     return
+                two = bool(sp.get("nested_sim2"))
+                if two and ctx.get(d.ns_probe2.run) != ir:
+                    out[0] = (
+                        f"method, nested transaction and the transaction nested in that one (all simultaneous): method.run={ir}, "
+                        f"innermost transaction runs={ctx.get(d.ns_probe2.run)}; val={val}"
+                    )
+                    return
                 gok = all(val[f"ns_g{i}"] for i in range(len(d.ns_guards)))
-                en_all = bool(val["ns_top"] and val["ns_inner"] and val["ns_nested"] and gok)
+                en_all = bool(val["ns_top"] and val["ns_inner"] and val["ns_nested"] and gok and (not two or val["ns_nested2"]))
                 if ir and not en_all:
                     out[0] = f"nested simultaneous pair runs although a side is not enabled / not called; val={val}"
                     return
